@@ -393,7 +393,7 @@ def check_C09(tier, seed):
 def check_C13(tier, seed):
     c = syscamp.Campaign("C13", tier, seed, own_ids=["C13"])
     try:
-        c.build()
+        c.build(dist=True)
         _alloc_mc(c, tier)
         c.driver_phase(_alloc_runs(tier, seed + 7))
         _tw_mc(c, tier, [("TimeWarpMC_m1.tla", "TimeWarpMC_m1_g1.cfg", "m1 + abstract GVT + fossil collection (fossil then rollback to the first uncommitted position)", 1)] +
@@ -414,6 +414,11 @@ def check_C13(tier, seed):
         # (family backlog: a quiet LP far ahead of a GVT that a ticking LP holds down, one thread each)
         em1 = lambda r: {"ckpt": 1, "batch": 1, "period": 0, "switch": r.choice(["1/4", "1/8", "1/24"]), "threads": 3}
         c.run(_models(tier, seed + 3, ["backlog"], 6, 16, "medium", "medium"), 4 if tier == "quick" else 8, emphasis=em1)
+        # fossil collection across ranks: the kept history then holds marks of REMOTE sends above the GVT, which the backward walk of
+        # fossil_lp_collect must step over (seeded change C13d: the walk stopped on such a mark and read a timestamp through the tagged pointer)
+        c.micro_phase("d1", 24 if tier == "quick" else 600, ranks=2, threads=1)
+        dem = lambda r: dict(DIST_EM(r), ckpt=r.choice([1, 2, 3, 5]), batch=1, period=0)
+        c.run(_models(tier, seed + 50, ["mixed", "fanout", "zerodelay", "burst"], 4, 14), 5 if tier == "quick" else 12, emphasis=dem)
         return c.finish(rule=ALLOC_RULE)
     finally:
         c.close()
